@@ -221,6 +221,29 @@ def package_level(report, sc, ybin, lean, seed, n):
                         report.violation(f"non-documentation-comments-change-generated-code:{tgt}", dict(replay, first_difference=d),
                                          "comment blocks separated from a node by an empty line (not documentation) changed the generated code")
                         break
+        # (1c) the same definitions spread over several YAML documents of one file ('---' after every definition / every second definition)
+        if i <= n or i % 3 == 0:
+            for k in (1, 2):
+                pd = copy.deepcopy(pkg)
+                pd.documents = k
+                for imp in pd.imports:
+                    imp.documents = k
+                v = codeclab.Lab(sc, ybin, f"{i}docs{k}", g, pkg=pd, ndjson=True, want_cpp=True, want_matlab=True)
+                v.spell_rng, v.expanded_p = random.Random(seed + 1), 0.05
+                _generate(v)
+                report.case(distinct_key=(i, "documents", k))
+                report.count("respelling.yaml-documents")
+                replay = {"seed": seed, "model_index": i, "variant": f"a new YAML document after every {k} definition(s)", "files_base": files, "files_variant": c01._files(v)}
+                if not v.gen_ok:
+                    report.violation("respelled-model-rejected", dict(replay, error=v.err), "a model accepted as one YAML document is rejected when spread over several documents")
+                    continue
+                for tgt in ("out_cpp", "out_py", "out_matlab", "out_json"):
+                    d = _diff_trees(os.path.join(base.root, tgt), os.path.join(v.root, tgt))
+                    report.count("compared." + tgt)
+                    if d:
+                        report.violation(f"yaml-documents-change-generated-code:{tgt}", dict(replay, first_difference=d),
+                                         "spreading the definitions of a file over several YAML documents changed the generated code")
+                        break
         # (2) definition order / file split
         p2 = copy.deepcopy(pkg)
         rr = random.Random(seed * 31 + i)
